@@ -21,6 +21,9 @@ from harness import screens as S
 
 common.use_repo_sources()
 
+import logging  # noqa: E402
+logging.getLogger("batchie").setLevel(logging.ERROR)   # the wrappers warn when nothing is unobserved
+
 OPS = ["gen-perm", "gen-seg", "gen-pair", "sm-fixed", "sm-opt", "sm-nplate", "sm-mergemin", "sm-topbottom",
        "sm-ensemble", "cover", "combofilter", "ho-bal", "ho-rand"]
 GENERATORS = ("gen-perm", "gen-seg", "gen-pair")
